@@ -3,6 +3,7 @@ package main
 import (
 	"fmt"
 	"math"
+	"os"
 	"strconv"
 
 	"golang.org/x/perf/benchunit"
@@ -17,6 +18,7 @@ func init() { gens["C10"] = genC10 }
 //	1 common   (1 cls (vals...) scalerOpt (strs...) scaleStrOpt sameAsMin)  CommonScale + Format of every value
 //	2 format   (2 prec factor prefix v ((qbits shortest)...) out)          Scaler.Format with an arbitrary Scaler (incl. NoOpScaler)
 //	3 classof  (3 unit cls)
+//	4 rows     (4 ((unit text ((sameAsMin (centre?...)) ...)) ...))        real benchtab tables: ToText's text and the centres of every row (c16gaps.go)
 type c10Input struct {
 	Kind   string   `json:"kind"`
 	Class  int      `json:"class,omitempty"`
@@ -265,7 +267,7 @@ func c10AnyValue(r *hx.Rng, centres []float64) float64 {
 }
 
 func genC10(o *hx.Out, r *hx.Rng, tier string, replay string) error {
-	o.Rule = "CommonScale/Scale/Scaler.Format/ClassOf of golang.org/x/perf/benchunit through the public API: (0) the change points of v -> CommonScale([v]) per class found by bisection over bit patterns, (1) every float within +-64 (quick) / +-4096 (thorough) ulps of every observed change point and of every threshold of the documented recipe, random magnitudes 1e-30..1e30, tie-prone mantissas (x.x5, x.xx5, x.xxx5 exactly representable, times each prefix), multisets of 1-6 values incl. zeros, NaN, Inf, negative, bad Class; (2) Format with arbitrary Scalers incl. NoOpScaler with strconv's shortest output recorded as oracle; (3) ClassOf on unit strings assembled from tokens and ASCII/Unicode separators and invalid UTF-8. non-trivial = a non-zero finite magnitude / non-empty unit; distinct by input"
+	o.Rule = "CommonScale/Scale/Scaler.Format/ClassOf of golang.org/x/perf/benchunit through the public API: (0) the change points of v -> CommonScale([v]) per class found by bisection over bit patterns, (1) every float within +-64 (quick) / +-4096 (thorough) ulps of every observed change point and of every threshold of the documented recipe, random magnitudes 1e-30..1e30, tie-prone mantissas (x.x5, x.xx5, x.xxx5 exactly representable, times each prefix), multisets of 1-6 values incl. zeros, NaN, Inf, negative, bad Class; (2) Format with arbitrary Scalers incl. NoOpScaler with strconv's shortest output recorded as oracle; (3) ClassOf on unit strings assembled from tokens and ASCII/Unicode separators and invalid UTF-8; (4) the shared scale as cmd/benchstat's table renderer applies it (benchtab.Table.RowScaler / ToText on real tables built in process from generated files): rows whose least non-zero |centre| is negative, all-negative rows, rows mixing zero, negative and positive centres, decimal and binary units, 1-5 rows x 2-4 columns with missing cells - the centres printed in the text are read back and judged like (1). non-trivial = a non-zero finite magnitude / non-empty unit; distinct by input"
 	thorough := tier == "thorough"
 
 	// (0) tables, read back through behaviour
@@ -486,5 +488,12 @@ func genC10(o *hx.Out, r *hx.Rng, tier string, replay string) error {
 		}
 		c10ClassCase(o, u)
 	}
-	return nil
+	// (4) the shared scale through the table renderer (c16gaps.go): real benchtab
+	// tables with negative / mixed-sign rows, the centres printed by Table.ToText
+	dir, err := os.MkdirTemp(os.Getenv("VERIF_WORK"), "c10rows")
+	if err != nil {
+		return err
+	}
+	defer os.RemoveAll(dir)
+	return c16GenRowScale(o, r, tier, dir, 4, false)
 }
